@@ -7,7 +7,7 @@ git -C /repo worktree add -q --detach $wt HEAD || exit 2
 if ! git -C $wt apply "$patch"; then echo "patch does not apply"; git -C /repo worktree remove --force $wt; exit 2; fi
 mkdir -p /tmp/seed_evidence /tmp/seed_replays
 for p in "$@"; do
-  out=$(cd /verif && VERIF_REPO=$wt VERIF_EVIDENCE_DIR=/tmp/seed_evidence VERIF_REPLAYS_DIR=/tmp/seed_replays timeout 1800 /venv/bin/python harness/check.py $p --tier ${TIER:-quick} 2>&1; echo "EXIT-CODE=$?")
+  out=$(cd ${VERIF_ROOT:-/verif} && VERIF_REPO=$wt VERIF_EVIDENCE_DIR=/tmp/seed_evidence VERIF_REPLAYS_DIR=/tmp/seed_replays timeout 1800 /venv/bin/python harness/check.py $p --tier ${TIER:-quick} 2>&1; echo "EXIT-CODE=$?")
   rc=$(echo "$out" | grep -o 'EXIT-CODE=[0-9]*' | tail -1)
   echo "== $p: $(echo "$out" | grep -c VIOLATION) violation line(s) $rc"
   if [ "$rc" != "EXIT-CODE=0" ] && [ "$rc" != "EXIT-CODE=1" ]; then echo "$out" | grep -v -i conda | tail -4; fi
